@@ -120,6 +120,7 @@ def cases(tier: str) -> list[tuple[str, str, int, int]]:
         ('tof_meas', 'line3', 1, 0), ('tof_meas', 'star4', 1, 1),
         ('ring4', 'line5', 1, 0), ('blocked', 'ring5czu3', 1, 0),
         ('two_meas', 'star4', 1, 0), ('one', 'two', 1, 0),
+        ('one', 'two', 4, 0),
         ('ghz_far', 'star4', 2, 0), ('blocked', 'line4cz', 2, 1),
     ]
     if tier == 'quick':
